@@ -258,6 +258,23 @@ func (env *SpecEnv) ident(name string) SVal {
 		if v, ok := env.local(name); ok {
 			return v
 		}
+		// a variable of an enclosing function that an inlined closure reaches only through
+		// another closure: look through the caller frames
+		if name != "rangeindex" && name != "outerindex" {
+			saved := env.frame
+			for i := len(env.st.frames) - 1; i >= 0; i-- {
+				f2 := env.st.frames[i]
+				if f2 == saved || f2.id >= saved.id {
+					continue
+				}
+				env.frame = f2
+				v, ok := env.local(name)
+				env.frame = saved
+				if ok {
+					return v
+				}
+			}
+		}
 	}
 	if gl, ok := fv.ghostLocals[name]; ok {
 		if v, ok := env.st.globals["gl:"+name]; ok {
@@ -867,6 +884,13 @@ func (env *SpecEnv) call(e *SExpr) SVal {
 			// two slices share their backing array
 			a, b := env.eval(args[0]), env.eval(args[1])
 			return SVal{T: And(Eq(Field(a.T, 0), Field(b.T, 0)), Not(Eq(Field(a.T, 0), IntLit(0)))), Typ: types.Typ[types.Bool]}
+		case "fresh":
+			// the slice is nil or its backing array was allocated during this call
+			x := env.eval(args[0])
+			if env.old == nil {
+				env.fail("fresh() needs the entry state")
+			}
+			return SVal{T: Or(Eq(Field(x.T, 0), IntLit(0)), ILe(env.old.nextRef, Field(x.T, 0))), Typ: types.Typ[types.Bool]}
 		case "allocated":
 			x := env.eval(args[0])
 			return SVal{T: And(ILe(IntLit(0), x.T), ILt(x.T, env.st.nextRef)), Typ: types.Typ[types.Bool]}
